@@ -254,9 +254,15 @@ def get_attr(interp, o, attr, st, node):
         if h:
             r = h("getattr", o, attr, None, st)
             if r is not NotImplemented: return r
-        if o.cls:
-            k = f"{o.cls}.{attr}"
-            if interp.repo.has(k): return BoundMethod(o, attr)
+        if o.cls and interp.repo.has(o.cls):
+            m = interp.find_method(o.cls, attr)
+            if m is not None:
+                fnode = interp.repo.index[m]
+                if any(ast.unparse(d) == "property" for d in fnode.decorator_list):
+                    return interp.call_func(Func(m, fnode), [o], {}, st, node)
+                return BoundMethod(o, attr)
+        if o.cls == "super" or not (o.cls and interp.repo.has(o.cls)):
+            return BoundMethod(o, attr)       # foreign object: let the method model decide
         return Opaque(f"attribute {attr}")
     if isinstance(o, (Arr, ArrParam, LocalArr, Masked)):
         if attr == "shape":
